@@ -241,3 +241,81 @@ def gen_source(rng, cfg, maxparts=8, unicode_text=False):
         else:
             parts.append(rng.choice([bs, be, vs, ve, cs, ce, bs[:1], "-", "+", "raw", bs + " raw", "}", "{"]))
     return "".join(parts)
+
+
+# ---------------------------------------------------------------- configuration axes / entry points (round 7)
+class _S(str):
+    """a plain user subclass of str (no overrides)"""
+
+
+_route_envs = {}
+_loader_store = {}
+
+
+def _renv(jinja2, route, cfg, make):
+    k = (route, cfg.key())
+    e = _route_envs.get(k)
+    if e is None:
+        e = _route_envs[k] = make()
+    return e
+
+
+def render_route(jinja2, route, cfg, src, **ctxvars):
+    """render `src` under configuration `cfg` through one entry point / environment class"""
+    kw = cfg.kwargs()
+    if route == "environment":
+        return env_for(jinja2, cfg).from_string(src).render(**ctxvars)
+    if route == "template_ctor":
+        return jinja2.Template(src, **kw).render(**ctxvars)
+    if route == "overlay_of_used":
+        def mk():
+            base = _route_envs.get("usedbase")
+            if base is None:
+                base = _route_envs["usedbase"] = jinja2.Environment()
+                base.from_string("u{# c #}{% raw %}x{% endraw %}\n").render()
+            return base.overlay(**kw)
+        return _renv(jinja2, route, cfg, mk).from_string(src).render(**ctxvars)
+    if route == "sandboxed":
+        from jinja2.sandbox import SandboxedEnvironment
+        return _renv(jinja2, route, cfg, lambda: SandboxedEnvironment(**kw)).from_string(src).render(**ctxvars)
+    if route == "immutable_sandboxed":
+        from jinja2.sandbox import ImmutableSandboxedEnvironment
+        return _renv(jinja2, route, cfg, lambda: ImmutableSandboxedEnvironment(**kw)).from_string(src).render(**ctxvars)
+    if route == "async_env":
+        return _renv(jinja2, route, cfg, lambda: jinja2.Environment(enable_async=True, **kw)).from_string(src).render(**ctxvars)
+    if route == "autoescape":
+        return _renv(jinja2, route, cfg, lambda: jinja2.Environment(autoescape=True, **kw)).from_string(src).render(**ctxvars)
+    if route == "unoptimized":
+        return _renv(jinja2, route, cfg, lambda: jinja2.Environment(optimized=False, **kw)).from_string(src).render(**ctxvars)
+    if route == "extensions":
+        return _renv(jinja2, route, cfg, lambda: jinja2.Environment(
+            extensions=["jinja2.ext.do", "jinja2.ext.loopcontrols", "jinja2.ext.i18n", "jinja2.ext.debug"], **kw)
+        ).from_string(src).render(**ctxvars)
+    if route == "loader":
+        store = _loader_store.setdefault(cfg.key(), {})
+        e = _renv(jinja2, route, cfg, lambda: jinja2.Environment(loader=jinja2.FunctionLoader(lambda n: store[n]), cache_size=0, **kw))
+        store["t"] = src
+        return e.get_template("t").render(**ctxvars)
+    if route == "markup_source":
+        from markupsafe import Markup
+        return env_for(jinja2, cfg).from_string(Markup(src)).render(**ctxvars)
+    if route == "str_subclass_source":
+        return env_for(jinja2, cfg).from_string(_S(src)).render(**ctxvars)
+    if route == "generate":
+        return "".join(env_for(jinja2, cfg).from_string(src).generate(**ctxvars))
+    if route == "module":
+        return str(env_for(jinja2, cfg).from_string(src).make_module(ctxvars))
+    raise ValueError(route)
+
+
+ROUTES = ["template_ctor", "overlay_of_used", "sandboxed", "immutable_sandboxed", "async_env", "autoescape", "unoptimized",
+          "extensions", "loader", "markup_source", "str_subclass_source", "generate", "module"]
+
+
+def safe_route(jinja2, route, cfg, src, **ctxvars):
+    try:
+        return "D " + render_route(jinja2, route, cfg, src, **ctxvars)
+    except jinja2.TemplateSyntaxError as e:
+        return "ERR " + str(e)
+    except Exception as e:
+        return "X:" + type(e).__name__ + ":" + str(e)[:80]
